@@ -2577,6 +2577,15 @@ class Processor:
                                     str(yaml_path),
                                     except_segment
                                 ) from wrap_ex
+                        if newidx < 0:
+                            # An existing element was already sought -- and
+                            # not found -- so this lies before the first
+                            raise YAMLPathException(
+                                ("Cannot add an element before the start of"
+                                 + " a list"),
+                                str(yaml_path),
+                                except_segment
+                            )
                         for _ in range(len(data) - 1, newidx):
                             next_node = Nodes.build_next_node(
                                 yaml_path, depth + 1, value
